@@ -22,6 +22,20 @@ EXPLANATION = (
 )
 
 
+
+def _dispatcher_filter(repo, getter: str, default_name: str):
+    """The function the dispatcher hands to get_vehicles / get_requests as `filter_function` (by role, not by name): the nested
+    function of that name where it still exists, else whatever callable is passed."""
+    from .. import rules as _rules
+    solve = repo.func(DISP, "Dispatcher.generate_instructions._solve_assignment")
+    f = repo.func_opt(DISP, f"Dispatcher.generate_instructions._solve_assignment.{default_name}")
+    if f is not None:
+        return f
+    f = _rules.callable_argument(repo, solve, getter, "filter_function")
+    if f is None:
+        raise AnalysisError(f"_solve_assignment: no filter_function handed to {getter}")
+    return f
+
 def run(ctx: Ctx):
     repo = ctx.repo
     rules.rule_pairing(ctx, KINDS, "D1", "D1")
@@ -113,7 +127,7 @@ def fold_helper(ctx: Ctx):
         ctx.check(not early or errs_only, "D1", "TS.fold-helper", "modify_vehicle_assignment visits every request of the list (a missing one is skipped, not a reason to stop)", outer, loop,
                   why_bad=f"`{type(early[0]).__name__.lower()}` inside the loop over the requests: requests listed after a missing one keep (or never get) their assignment record",
                   construct="modify_vehicle_assignment:stops-early")
-        src = repo.module(DOPS).segment(loop)
+        src = ast.unparse(loop)  # the normalised tree (helpers inlined), not the raw source text
         both = "unassign_dispatched_vehicle()" in src and "assign_dispatched_vehicle(" in src and "modify_request(" in src
         ctx.check(both, "D1", "TS.fold-helper", "the loop assigns / unassigns through modify_request", outer, loop, why_bad="arms missing", construct="modify_vehicle_assignment:loop-arms")
         return
@@ -158,7 +172,7 @@ def dispatcher_filter(ctx: Ctx, exact: bool = False):
     """exact=True (C12): the targets are exactly the filtered waiting requests. exact=False (C17): any sub-selection of
     them will do — what matters is that nothing outside the filter is offered."""
     repo = ctx.repo
-    fn = repo.func(DISP, "Dispatcher.generate_instructions._solve_assignment._valid_request")
+    fn = _dispatcher_filter(repo, "get_requests", "_valid_request")
     r = fn.params[0]
     types = {r: gd.annotation_class(fn, r) or "Request"}
     acc = gd.accepting_paths(fn, repo, types)
